@@ -4,7 +4,7 @@ from __future__ import annotations
 from sa.terms import C, CallT, G, P, is_call, is_const, is_lit, show
 from sa.walker import State, flatten_events
 
-from . import fn_site
+from . import flat, fn_site
 from .c14 import ROW_KIND
 from .kinds import KINDS
 
@@ -72,7 +72,9 @@ def run(ctx):
                 continue
             agg["verbatim"] = False
             notes["verbatim"] = "field '%s' is %s, not the parameter nor its default" % (f, show(val)[:80])
-        if d["metadata_spec_version"] != G("const:common.SECURITY_METADATA_SPEC_VERSION"):
+        spec_lit = eng.const_literal("common.SECURITY_METADATA_SPEC_VERSION")
+        via_constant = _reads_constant(sm.fi.node, "SECURITY_METADATA_SPEC_VERSION")
+        if not (d["metadata_spec_version"] == G("const:common.SECURITY_METADATA_SPEC_VERSION") or (spec_lit is not None and d["metadata_spec_version"] == spec_lit and via_constant)):
             agg["spec-version"] = False
             notes["spec-version"] = "metadata_spec_version is %s" % show(d["metadata_spec_version"])[:60]
         for f in FIELDS:
@@ -119,7 +121,7 @@ def run(ctx):
     rrets = [p for p in rm.paths if p.kind == "return"]
     ok_all, why = bool(rrets), "no returning path"
     for p in rrets:
-        calls = [ev for ev in p.events if ev[0] == "call" and ev[2] == "repo:metadata_construction.build_delegating_metadata" and ev[5][0] == "ok"]
+        calls = [ev for ev in flat(p) if ev[0] == "call" and ev[2] == "repo:metadata_construction.build_delegating_metadata" and ev[5][0] == "ok"]
         if len(calls) != 1:
             ok_all, why = False, "%d calls of build_delegating_metadata" % len(calls)
             break
@@ -174,11 +176,18 @@ def run(ctx):
     ctx.ob("R4", "timestamp-helper", fn_site(eng, hm).loc(), "iso8601_time_plus_delta " + ("returns (utcnow().replace(microsecond=0) + delta).isoformat() + 'Z': naive, microsecond-free" if okh else "deviates: " + whyh), okh)
 
 
+def _reads_constant(fn_node, name):
+    """does the function body read the module constant by name (rather than repeat its literal)"""
+    import ast
+
+    return any(isinstance(n, ast.Name) and n.id == name and isinstance(n.ctx, ast.Load) for n in ast.walk(fn_node)) or any(isinstance(n, ast.Attribute) and n.attr == name for n in ast.walk(fn_node))
+
+
 def _default_ok(eng, field, val):
     # the default is a direct call of the helper: after expansion it is the helper's term with delta := K
-    from sa.terms import concat_parts
+    from sa.terms import text_parts
 
-    parts = concat_parts(val)
+    parts = text_parts(val)
     if not (len(parts) == 2 and parts[1] == C("Z") and is_call(parts[0], "method:isoformat") and parts[0][2]):
         return False, "is %s, not produced by the timestamp helper" % show(val)[:80]
     d = parts[0][2][0]
@@ -193,9 +202,9 @@ def _default_ok(eng, field, val):
 
 
 def _helper_shape(v, delta):
-    from sa.terms import concat_parts
+    from sa.terms import text_parts
 
-    parts = concat_parts(v)
+    parts = text_parts(v)
     if not (len(parts) == 2 and parts[1] == C("Z") and is_call(parts[0], "method:isoformat") and len(parts[0][2]) == 1 and not parts[0][3]):
         return False, "does not return <datetime>.isoformat() + 'Z' (%s)" % show(v)[:80]
     d = parts[0][2][0]
